@@ -297,6 +297,12 @@ func RunCheck(property string, level string, assumptions []string, parts []Part)
 		"samples": samples, "evaluations": evals, "distinct_nontrivial": nontriv,
 		"rule": strings.Join(rules, " | "), "exhaustive": exhaustive, "parts": reports,
 	}
+	if states == 0 {
+		// enumeration-only checks (no explicit-state search part): report the exploration-style counts only
+		delete(cov, "states")
+		delete(cov, "transitions")
+		delete(cov, "traces_validated_against_impl")
+	}
 	var knownLines []string
 	for sig, v := range knownSeen {
 		kf := MatchKnown(known, sig)
